@@ -8,27 +8,27 @@ TEXT = {
             'Bounds: 3 machines, 2 proposals per round, 2 concurrent workflows, horizon <= 60 steps. "Executing" = between entry and exit of Task.do_work in SimPy event order.'),
     'C02': ('Every operation history up to depth 3 (quick) / 4 (thorough) on a 3-machine real Cluster under real SimPy, plus one operation from every pool vector reachable by prelude (inductive step) and the invariant after every step of whole simulations; each shard decided by path-tree exhaustion.',
             'Bounds: 3 machines, 2 reservation names, task duration 2. num_provisioned_obs is asserted only on histories that follow the provisioning protocol.'),
-    'C03': ('Engine B proves start == max(allocation time, predecessor finish + volume/bandwidth) for <= 3 cross-machine predecessors over unbounded integers from the current source of Task._wait_for_transfer/do_work; CrossHair decides _find_pred_allocations and one round of each shipped algorithm on symbolic DAG/finished maps; whole simulations check the task table.',
+    'C03': ('Engine B proves start == max(allocation time, predecessor finish + volume/bandwidth) for <= 3 cross-machine predecessors over unbounded integers from the current source of Task._wait_for_transfer/do_work; CrossHair decides _find_pred_allocations, a case-split box of finish times x volumes on the real do_work (Engine-A companion of the Engine-B result) and one round of each shipped algorithm on symbolic DAG/finished maps; whole simulations (incl. volumes that are not multiples of the bandwidth) check the task table.',
             'Exact under bandwidth | volume (lemma L3, solver-checked to 2^8/2^11 bits); rational reading otherwise. DAGs <= 3 tasks in whole-simulation runs.'),
     'C04': ('Whole bounded simulations of the real actors (real SimPy, real networkx, pandas stub) under Batch/Queue/adversarial algorithms and injected delays; on return: every observation observed once, every ingest and workflow task activated exactly once, quiescent state, task table has one row per executed task.',
             'Bounds: <= 3 observations, <= 3 tasks, starts 0..4, durations 1..3; time-like inputs are case-split by the solver and each case runs natively.'),
-    'C05': ('Whole simulations with a step cap equal to the serial bound of the statement: unbounded symbolic data rates/capacities (traced end to end) and case-split timing grids with machine/ingest-limit shortage; any exception or hitting the cap is a violation tagged by site / blocked-state signature.',
+    'C05': ('Unit harness 'a transient shortage only postpones' (machines busy / ingest limit used up for k steps, buffer sizes unbounded symbolic); whole simulations with a step cap equal to the serial bound of the statement: unbounded symbolic data rates/capacities (traced end to end) and case-split timing grids with machine/ingest-limit shortage, three simultaneous starts and non-topological node labels; one round of the greedy algorithm on symbolic states; any exception or hitting the cap is a violation tagged by site / blocked-state signature.',
             'Two open known findings (tiering strands an observation in the cold buffer). Symbolic-size shards are bug-hunting only unless they exhaust (reported per shard). Horizon <= ~80 steps.'),
-    'C06': ('Engine B: Task.do_work/calculate_runtime executed symbolically from their current source into z3 integer terms; runtime formula, at-least-one, exit instant, flagging and monotonicity proved over unbounded integers (z3, cross-checked by cvc5); float division cut by lemma L1 (QF_BVFP, checked each run); CrossHair end-to-end harness with the real cluster poll and task table.',
+    'C06': ('Engine B: Task.do_work/calculate_runtime executed symbolically from their current source into z3 integer terms; runtime formula, at-least-one, exit instant, flagging and monotonicity proved over unbounded integers (z3, cross-checked by cvc5); also through the scheduler path (update_allocation then do_work); float division cut by lemma L1 (QF_BVFP, checked each run); CrossHair end-to-end harnesses with the real cluster poll, task table and scheduler path; whole simulations check the recorded runtime of every task.',
             'L1 solver-checked for operands < 2^8 (quick) / 2^11 (thorough), argued to 2^26, not claimed above.'),
-    'C07': ('Unit harnesses with unbounded symbolic rates/capacities: ingest stream deposits rate per step for duration steps, removal frees exactly the data once, admission predicate equals the room oracle (including data still to arrive), two overlapping ingests through the real admission path; whole simulations check both tiers after every step.',
+    'C07': ('Unit harnesses with unbounded symbolic rates/capacities: ingest stream deposits rate per step for duration steps, removal frees exactly the data once, admission predicate equals the room oracle (including data still to arrive), two overlapping ingests through the real admission path, the data of a finished workflow freed while another observation is mid-ingest; whole simulations check both tiers after every step.',
             'Bounds: durations 1..4, two overlapping observations. Refusal paths that format operands into messages run over small case-split ranges.'),
-    'C08': ('One timestep of the real Telescope/Scheduler/Cluster/Buffer from symbolic load states (pools by prelude, arrays in use, unbounded buffer space/rates, two observations due); every started observation is checked against the state after earlier starts of the same step; on-time clause for an idle system; whole simulations check array/ingest limits and ingest hold times.',
+    'C08': ('One timestep of the real Telescope/Scheduler/Cluster/Buffer from symbolic load states (pools by prelude incl. machines reserved-idle for a batch workflow, arrays in use, unbounded buffer space/rates, two observations due); every started observation is checked against the state after earlier starts of the same step; on-time clause for an idle system; whole simulations check array/ingest limits and ingest hold times.',
             'Bounds: 3 machines, 2 observations per step; quick tier varies array and machine resources in separate shards.'),
     'C09': ('Real BatchProcessing._provision_resources/_max_resource_provision/run on symbolic cluster states (1..4 machines, pools, partitions, minimum, per-observation split); foreign reserved machine refused; release returns the reservation; whole simulations with competing workflows check every allocation against the owner reservation.',
             'min_resources_per_workflow >= 1 (documented domain).'),
-    'C10': ('Two whole simulations of the same configuration inside one path with independent symbolic iteration ranks for the ready-task set (RankSet abstraction of hash order); outputs must be equal; counterexamples are confirmed by searching real PYTHONHASHSEED values in sub-processes before they are reported; seeded delay streams equal.',
+    'C10': ('Two whole simulations of the same configuration inside one path with independent symbolic iteration ranks for the ready-task set (RankSet abstraction of hash order); outputs must be equal; counterexamples are confirmed by searching real PYTHONHASHSEED values in sub-processes before they are reported; seeded delay streams equal for seeds 0, 7, 20; 18 real-interpreter runs under different PYTHONHASHSEED validate the abstraction.',
             "CPython's actual set layout is not modelled: rank orders over-approximate hash seeds; cross-process equality is replayed, not proved."),
     'C11': ('Real Simulation.start(k) + resume(...) against one uninterrupted start(T) for every pause point k and second cut j (solver case-split); state, step table, task table and event log compared; refusals of start-twice / resume-before-start leave everything unchanged.',
             'T = 16, two resume segments, two observations, Batch and Queue.'),
     'C12': ('Whole simulations with a probe process registered ahead of the monitor: every row of the per-timestep table equals the state computed independently from pools/lists, one row per step in order.',
             'Bounds as C04; overlapping ingests ending at different times included.'),
-    'C13': ('Same runs as C12; event log checked per observation: each of the eight transitions exactly once, correct stamps, causal order, finished - started == duration.',
+    'C13': ('Same runs as C12; event log checked per observation: each of the eight transitions exactly once, correct stamps, causal order, finished - started == duration (also checked on the partial log of a run that hits the step cap).',
             'Bounds as C04.'),
     'C14': ('Real Planner.run -> BatchPlanning.generate_plan (real networkx) on symbolic DAGs: adjacency bits, compute, optional data demand and edge volumes are solver variables, node labels permuted; plan compared with the graph; predecessor/successor queries mutually inverse.',
             'Bounds: <= 3 nodes (quick) / 4 nodes all permutations (thorough); unbounded integer attributes.'),
